@@ -34,7 +34,7 @@ CLAIMED = {
  "C09": dict(text=GEN + "Partial: hour branch, Five-Rats stem and the 23:00 roll-over on the lunar-hour route for all 60 day pillars x 24 hours (engine B); the instant-level view reports the next day's pillar from 23:00 with the matching hour pillar and switches year/month pillars at the term instants (engine B); the eight characters are exactly the view's four pillars for both shipped providers, and EightChar's getters return them (engine B); the inverse search visits every candidate year of the range and tries an instant in the hour pillar's double hour on every candidate day of the range (engine B, cycle loop unrolled; two genuine defects found here and fixed); refusal of invalid clock fields (Kani). Not covered: double hours containing a Jie instant, ranges wider than 130 years.",
              note="Assumes: the day pillar is an arbitrary pillar here (its value is C07 07.c); object-model axioms A-index, A-pillar, A-name, A-format.",
              technique=ENGB + " + " + BMC),
- "C17": dict(text=GEN + "Partial: six-day star incl. leap months, moon phase, minor Ren, month nine star, 28 mansions (+1 per day, luminary = weekday), day officer, Yellow/Black-path spirits for days and hours — engine B over the real index arithmetic for all inputs. flying nine star of the year (three 360-year windows), of the hour, and of the day (turning at the Jiazi days nearest the solstices; for the dates before a civil year's first turning day the check reports a known finding: the code counts back from that day and the star jumps on January 1 after a 240-day run). Not covered: year nine star outside the windows.",
+ "C17": dict(text=GEN + "Partial: six-day star incl. leap months, moon phase, minor Ren, month nine star, 28 mansions (+1 per day, luminary = weekday), day officer, Yellow/Black-path spirits for days and hours — engine B over the real index arithmetic for all inputs. flying nine star of the year (quick: five 360-year windows, thorough: every year -1..9999), of the hour, and of the day (turning at the Jiazi days nearest the solstices; for the dates before a civil year's first turning day the check reports a known finding: the code counts back from that day and the star jumps on January 1 after a 240-day run).",
              note="Assumes: object-model axioms A-index, A-pillar; weekday and day pillar as functions of the day number from C07.",
              technique=ENGB),
  "C16": dict(text=GEN + "Partial: the seconds -> (years, months, days, hours, minutes) conversions of the Default, China95 and LunarSect2 strategies for every difference up to 32 days and of LunarSect1 (days and double hours; hours 0..22), and the calendar addition of AbstractChildLimitProvider::next (clock carries, day overflow through arbitrary month lengths with the loop bound proved, start month, month steps); the forward/backward rule and which Jie governs; decade and yearly fortunes (indices, ages, years, month/hour pillar stepped by +-1 in the direction of luck, next(n)) — engine B on the compiler's MIR with overflow asserts proved. Not covered: LunarSect1 at hour 23, months with missing days, which term an instant belongs to.",
